@@ -3,9 +3,12 @@
 
    The parser is regex based: a statement's text goes (1) through the splitter (comments, blank lines, continuation lines,
    fences: Split.split_lines), (2) through term_re.finditer (Lex.match_here / Lex.scan), which determines the terms and the
-   template, (3) through the whitespace normalisation of the template (ParseEq.normalise_template).  Each transformation of
-   the property's catalogue is proved harmless at the stage that absorbs it, for ALL strings / names / blanks /
-   continuations (no bound):
+   template, (3) through the whitespace normalisation of the template (ParseEq.normalise_template).  The transformations of
+   the property's catalogue are treated at the stage that absorbs them.  The stage lemmas hold for all strings (no bound), but
+   a stage lemma alone does not give the clause — lexing comes before normalisation — and the whole-statement theorems hold under
+   decidable guards (dq_ok / dq_ok_ws / sep_ok / cont_scan / no "#"); what these guards exclude, and which clauses therefore rest
+   on K and the oracle, is listed under "WHAT IS PROVED ABOUT WHAT" below, the excluded behaviours that are defects as `_refuted`
+   theorems at the end of the file (fourteen kept findings).
      comments, blank lines, statement independence ........ stage 1   C14_trailing_comment, C14_comment_line, C14_blank_line,
                                                                     C14_comment_on_a_line, C14_blank_line_between (whole scripts, parse_model equal),
                                                                     C14_split_app, C14_parse_model_by_statements, C14_statements_independent,
@@ -34,7 +37,11 @@
    * Statement shapes OUTSIDE the image of denorm_text (no statement-level theorem; K_parse_layout + oracle only): blanks between a
      function name and "(" (`max (X)`: eaten by term_re, the normal form is `max(`), a comment or a blank line on a non-final
      continuation line, line separators other than "\n" inside round brackets (\r\n, form feed, \x85: ContSplit.cont_scan wants
-     "\n"), a left-hand side other than one NAME[k] (tuple targets), "#" anywhere in the statement (C14_hash_in_quotes_refuted).
+     "\n"), a left-hand side other than one NAME[k] (tuple targets), "#" anywhere in the statement (C14_hash_in_quotes_refuted), a blank
+     between the sign and the digits of an offset or next to the dot of a dotted function name (C14_index_sign_blank_refuted,
+     C14_dotted_name_blank_refuted), a statement wholly inside round brackets (C14_bracketed_statement_refuted).  sep_ok also excludes
+     a keyword constant right after "<" (`Y = X < True`, accepted by fsic and harmless): wider than any finding, by construction of
+     the "<"-rule.
    * Empty versus non-empty gaps: C14_gaps_same_tokens (same terms and symbols, texts equal up to blank tokens); that this is the
      same Python code rests on the oracle's ast.dump.
    * (g) statement independence and (h) permutation are proved for parse_model_nocheck (check_syntax=False): C14_parse_model_by_
@@ -532,6 +539,44 @@ Theorem C14_hash_in_quotes_refuted :
   view_of (parse_model_nocheck "Y = X['a_b']") = Some [(Some "Y", TEndogenous, Some "Y[t] = X['a_b']", Some "self._Y[t] = self['X', 'a_b']"); (Some "X", TExogenous, None, None)].
 Proof. exact hash_in_quotes_refuted. Qed.
 Print Assumptions C14_hash_in_quotes_refuted.
+
+(* second independent review, 2026-10-02 — five more, each reproduced on the pinned tree and in the model: *)
+(* (a) blanks INSIDE an index bracket are harmless around the offset, not between its sign and its digits (int('- 1')) *)
+Theorem C14_index_sign_blank_refuted :
+  parse_model_nocheck "Y = X[- 1]" = PErr ParserError /\ parse_model_nocheck "Y = X[+ 1]" = PErr ParserError /\
+  view_of (parse_model_nocheck "Y = X[ -1 ]") = Some [(Some "Y", TEndogenous, Some "Y[t] = X[t-1]", Some "self._Y[t] = self._X[t-1]"); (Some "X", TExogenous, None, None)].
+Proof. exact index_sign_blank_refuted. Qed.
+Print Assumptions C14_index_sign_blank_refuted.
+(* (b) a blank next to the dot of a dotted function name is accepted and changes the symbols and the code *)
+Theorem C14_dotted_name_blank_refuted :
+  view_of (parse_model_nocheck "Y = np .sqrt(X)")
+  = Some [(Some "Y", TEndogenous, Some "Y[t] = np[t] .sqrt(X[t])", Some "self._Y[t] = self._np[t] .sqrt(self._X[t])");
+          (Some "np", TExogenous, None, None); (Some "sqrt", TFunction, None, None); (Some "X", TExogenous, None, None)] /\
+  view_of (parse_model_nocheck "Y = np.sqrt(X)")
+  = Some [(Some "Y", TEndogenous, Some "Y[t] = np.sqrt(X[t])", Some "self._Y[t] = np.sqrt(self._X[t])"); (Some "np.sqrt", TFunction, None, None); (Some "X", TExogenous, None, None)].
+Proof. exact dotted_name_blank_refuted. Qed.
+Print Assumptions C14_dotted_name_blank_refuted.
+(* (c) duplicate detection again (cf. C14_duplicate_statement_respaced_refuted): adding a comment to one copy, or re-spacing a call *)
+Theorem C14_duplicate_statement_comment_refuted :
+  view_of (parse_model_nocheck ("Y = X " ++ nl_s ++ "Y = X ")) = Some [(Some "Y", TEndogenous, Some "Y[t] = X[t] ", Some "self._Y[t] = self._X[t] "); (Some "X", TExogenous, None, None)] /\
+  parse_model_nocheck ("Y = X " ++ nl_s ++ "Y = X # c") = PErr ParserError /\
+  parse_model_nocheck ("Y = max(X, Z)" ++ nl_s ++ "Y = max (X,Z)") = PErr ParserError.
+Proof. exact duplicate_statement_comment_refuted. Qed.
+Print Assumptions C14_duplicate_statement_comment_refuted.
+(* (d) a form feed (likewise \x1c-\x1e, \x85, \r): whitespace for the regexes, a line boundary for str.splitlines — outside round
+   brackets it cuts the statement in two; inside them it is a continuation *)
+Theorem C14_form_feed_outside_brackets_refuted :
+  parse_model_nocheck ("Y = X *" ++ ff_s ++ " Z") = PErr ParserError /\
+  view_of (parse_model_nocheck ("Y = (X *" ++ ff_s ++ " Z)"))
+  = Some [(Some "Y", TEndogenous, Some "Y[t] = (X[t] * Z[t])", Some "self._Y[t] = (self._X[t] * self._Z[t])"); (Some "X", TExogenous, None, None); (Some "Z", TExogenous, None, None)].
+Proof. exact form_feed_outside_brackets_refuted. Qed.
+Print Assumptions C14_form_feed_outside_brackets_refuted.
+(* (e) "(Y =\n X)", the layout documented with equation_re ("brackets beginning on the left-hand side"): the brackets stay in the
+   code — an assignment inside round brackets, rejected by the syntax check (ParserError with check_syntax=True) *)
+Theorem C14_bracketed_statement_refuted :
+  view_of (parse_model_nocheck ("(Y =" ++ nl_s ++ " X)")) = Some [(Some "Y", TEndogenous, Some "(Y[t] = X[t])", Some "(self._Y[t] = self._X[t])"); (Some "X", TExogenous, None, None)].
+Proof. exact bracketed_statement_refuted. Qed.
+Print Assumptions C14_bracketed_statement_refuted.
 
 (* fix 85765d5 at work: the script with the open fence is rejected alone and with a statement appended; closing the fence
    makes it an accepted block again, after which the appended statement is parsed as usual *)
